@@ -18,7 +18,12 @@ RULE = ('compute_features(burst_method="amp") on generated signals (sparse / bur
 RULE = RULE + '. Table stream (kind table_amp, 700 quick / 7000 thorough): ' + T.RULE
 ASSUMPTIONS = ['signals finite',
                'table stream: NaN fractions, thresholds outside [0,1] / NaN, negative counts, empty tables and the dtype of the '
-               'label column are compared with the model only (outside the statement)']
+               'label column are compared with the model only (outside the statement)',
+               'options of the method that is not selected: a consistency threshold (amp_fraction_threshold, ...) in '
+               'threshold_kwargs together with burst_method="amp" is rejected by the library (TypeError of detect_bursts_amp, '
+               'compute_features and Bycycle alike) and is outside the quantifier, so it is not generated; the converse '
+               '(burst_kwargs together with burst_method="cycles", accepted and ignored) is generated for the consistency '
+               'method (pipeline.other_method_options, judged by C06)']
 COQ_STREAMS = {'pipe': (pipeline.COQ_HEADER, pipeline.COQ_RUNNER, pipeline.COQ_TYPES, pipeline.SHARD),
                T.STREAM: T.COQ_STREAM}
 
